@@ -51,3 +51,12 @@ Record rcase := { r_cvs : list (list Q); r_f : fexpr; r_ss : list scheme; r_mesh
 Definition rcheck (k : rcase) : bool :=
   Qsclose tol tol (r_out k)
     (peraxis_mesh (r_ss k) (r_cvs k) (vget (map (@length Q) (r_cvs k)) (collocate (feval (r_f k)) (r_cvs k))) (r_mesh k)).
+
+(* ---- calling conventions by shape: result shape / ValueError of interp(np.zeros(shape)) ---- *)
+Record hcase := { h_d : nat; h_shape : list nat; h_out : option (list nat) }.
+Definition hcheck (k : hcase) : bool :=
+  match array_call_shape (h_d k) (h_shape k), h_out k with
+  | None, None => true
+  | Some a, Some b => nats_eqb a b
+  | _, _ => false
+  end.
